@@ -94,10 +94,28 @@ def shard_fn(shard, nshards, seed, tier, exe, nhist):
         cid = "%d.%d" % (shard, i)
         cases.append((cid, cmds))
         meta[cid] = plan
+    # big strings (64 KiB .. 3 MB, pattern-generated in the driver): sets in every size order, a third of them with the allocation failing
+    bigmeta = {}
+    for i in range(max(4, nhist // nshards // 80)):
+        sizes = [1, 100, 4096, 65535, 65536, 131071, 131072, 131073, 200000, 262144, 1048576, 3000000]
+        cmds, plan = ["NEW 0 - str x6162"], []
+        for _ in range(rng.choice([3, 4, 6])):
+            n, sd, fail = rng.choice(sizes) + rng.choice([0, 0, 1, -1, 17]), rng.getrandbits(16), rng.random() < 0.35
+            cmds += (["FAILNEXT 1"] if fail else []) + ["SSTRP 0 %d %d" % (n, sd)] + (["FAILNEXT 0"] if fail else []) + ["GSTRC 0"]
+            plan.append((n, sd, fail))
+        if rng.random() < 0.5:
+            cmds += ["DCOPY 0 1 0", "EQ 0 1", "GSTRC 1", "PUT 1"]
+        cmds.append("PUT 0")
+        cid = "%d.big%d" % (shard, i)
+        bigmeta[cid] = plan
+        cases.append((cid, cmds))
     # the probes need the model bytes, which depend on whether injected faults fired; since only *growing* sets allocate, the
     # model is predictable: a set needs an allocation iff its length exceeds the current one.  Resolve the probes now.
     resolved = []
     for cid, cmds in cases:
+        if cid in bigmeta:
+            resolved.append((cid, cmds))
+            continue
         plan = meta[cid]
         out, model, pi = [], b"", 0
         for c in cmds:
@@ -146,6 +164,45 @@ def shard_fn(shard, nshards, seed, tier, exe, nhist):
     for cid, lines in results.items():
         cmds = cmdmap[cid]
         rep = {"driver": "jcdrv", "variant": "asan", "script": cmds}
+        if cid in bigmeta:
+            cur, li, key = (2, None), 1, None   # (length, seed); the initial "ab"
+            import zlib
+
+            def crc_of(c):
+                return zlib.crc32(b"ab") if c[1] is None else zlib.crc32(bytes((c[1] + j * 7) & 0xFF for j in range(c[0])))
+            for (n, sd, fail) in bigmeta[cid]:
+                if fail:
+                    li += 1
+                ret = int(lines[li].split()[1])
+                li += 1
+                fired = 0
+                if fail:
+                    fired = int(lines[li].split("=")[2])
+                    li += 1
+                g = lines[li].split()
+                li += 1
+                sh.evaluations += 2
+                if ret == 1:
+                    cur = (n, sd)
+                elif not fired:
+                    key, what = "set-failed", "set_string_len(%d pattern bytes) returned %d although nothing failed" % (n, ret)
+                    break
+                else:
+                    sh.count("big.set_failed_by_injected_fault" + (".while_holding_128KiB_or_more" if cur[0] >= 131072 else ""))
+                if int(g[1]) != cur[0] or int(g[2]) != crc_of(cur) or g[3] != "term=0":
+                    key, what = "contents", "after %s set of %d bytes: length %s crc %s %s, model length %d crc %d" % ("a failed" if ret != 1 else "a", n, g[1], g[2], g[3], cur[0], crc_of(cur))
+                    break
+                sh.count("big.sets")
+            if not key and "DCOPY 0 1 0" in cmds:
+                eq, g = int(lines[li + 1].split()[1]), lines[li + 2].split()
+                if eq != 1 or int(g[1]) != cur[0] or int(g[2]) != crc_of(cur):
+                    key, what = "copy-contents", "deep copy of a %d-byte string: equal=%d length %s" % (cur[0], eq, g[1])
+            if not key and lines[-1].split()[1] != "live=0":
+                key, what = "leak", "blocks left after the string node was destroyed: " + lines[-1]
+            if key:
+                sh.violation("C11/" + key, what, rep)
+            sh.nontrivial("\n".join(cmds))
+            continue
         model = None
         key = None
         armed = False
